@@ -394,4 +394,111 @@ theorem walkLoopC_spec {M : Meta} {buf : Bytes} {k : Nat} (hc : Chain buf k) :
     · simp only [hh, Bool.false_eq_true, if_false]
       exact ⟨_, c, rfl, hg, by simpa using hh⟩
 
+/-! ### every state reachable through the parser's public operations -/
+
+/-- what every parser state reachable from the constructor satisfies: the null parser of an empty vector, or a good
+    state on a validated chain -/
+def ParserInv (M : Meta) (buf : Bytes) (c : PC) : Prop :=
+  (buf = [] ∧ c.p.null = true ∧ c.p.bit = M.max ∧ c.p.buf = buf) ∨ (∃ k, Chain buf k ∧ Good M buf k c.p)
+
+theorem mkC_inv {M : Meta} {buf : Bytes} {c : PC} (h : mkC M buf = .ok c) : ParserInv M buf c := by
+  rcases mkC_spec M buf with ⟨hnil, c0, h0, _, h1, h2, h3⟩ | ⟨ht, _⟩ | ⟨_, c0, k, h0, _, hc, hg, _, _⟩
+  · rw [h] at h0; injection h0 with h0; subst h0
+    exact Or.inl ⟨hnil, h1, h2, h3⟩
+  · rw [h] at ht; cases ht
+  · rw [h] at h0; injection h0 with h0; subst h0
+    exact Or.inr ⟨k, hc, hg⟩
+
+theorem hasFields_null {M : Meta} {p : Parser} (hb : p.bit = M.max) : hasFields M p = false := by
+  simp [hasFields, hb]
+
+theorem advanceFieldC_inv {M : Meta} {buf : Bytes} {c : PC} (hi : ParserInv M buf c) :
+    ∃ c' r, advanceFieldC M c = .ok (c', r) ∧ (c'.p, r) = advanceField M c.p ∧ ParserInv M buf c' := by
+  rcases hi with ⟨hnil, hn, hb, hbuf⟩ | ⟨k, hc, hg⟩
+  · refine ⟨c, false, ?_, ?_, Or.inl ⟨hnil, hn, hb, hbuf⟩⟩
+    · simp [advanceFieldC, hn]
+    · simp [advanceField, hn]
+  · obtain ⟨c', r, he, heq, hg', _⟩ := advanceFieldC_spec hc c hg
+    exact ⟨c', r, he, heq, Or.inr ⟨k, hc, hg'⟩⟩
+
+theorem skipToFieldC_inv {M : Meta} {buf : Bytes} {c : PC} (hi : ParserInv M buf c) (bit fuel : Nat) (hf : walkFuel M ≤ fuel) :
+    ∃ c', skipToFieldC M fuel c bit = .ok (c', hasFields M c'.p) ∧ ParserInv M buf c' ∧
+      (hasFields M c'.p = true → c'.p.bit = bit) := by
+  rcases hi with ⟨hnil, hn, hb, hbuf⟩ | ⟨k, hc, hg⟩
+  · have hnf := hasFields_null (M := M) hb
+    cases fuel with
+    | zero => simp [walkFuel] at hf
+    | succ f =>
+      refine ⟨c, ?_, Or.inl ⟨hnil, hn, hb, hbuf⟩, fun h => by rw [hnf] at h; cases h⟩
+      simp [skipToFieldC, hnf]
+  · obtain ⟨c', he, hg', hx, _⟩ := skipToFieldC_spec hc bit fuel c hg (by have := walkFuel_gt_mu M k c.p; omega)
+    exact ⟨c', he, Or.inr ⟨k, hc, hg'⟩, hx⟩
+
+theorem currentOptionC_inv {M : Meta} {buf : Bytes} {c : PC} (hi : ParserInv M buf c) (hh : hasFields M c.p = true) :
+    (∃ d, currentOptionC M c.p = .ok d ∧ d = (buf.drop c.p.ptr).take (M.size c.p.bit) ∧ c.p.ptr + M.size c.p.bit ≤ buf.length) ∨
+      (currentOptionC M c.p = .throw .malformedPacket ∧ buf.length < c.p.ptr + M.size c.p.bit) := by
+  rcases hi with ⟨_, _, hb, _⟩ | ⟨k, _, hg⟩
+  · rw [hasFields_null hb] at hh; cases hh
+  · have hlt : c.p.bit < M.max := by
+      simp only [hasFields, Bool.and_eq_true, bne_iff_ne, ne_eq, decide_eq_true_eq] at hh
+      have := hg.bit; omega
+    unfold currentOptionC
+    have h1 : ¬ (c.p.bit ≥ M.max) := by omega
+    simp only [h1, if_false]
+    rw [hg.buf]
+    by_cases h2 : c.p.ptr + M.size c.p.bit > buf.length
+    · right; simp [h2]
+    · have h3 : c.p.ptr + M.size c.p.bit ≤ buf.length := by omega
+      left
+      rw [if_neg h2, if_pos h3]
+      exact ⟨_, rfl, rfl, h3⟩
+
+theorem walkLoopC_inv {M : Meta} {buf : Bytes} {c : PC} (hi : ParserInv M buf c) (acc : List WalkItem) (fuel : Nat)
+    (hf : walkFuel M ≤ fuel) :
+    ∃ items c', walkLoopC M fuel c acc = .ok (items, c') ∧ ParserInv M buf c' ∧ hasFields M c'.p = false := by
+  rcases hi with ⟨hnil, hn, hb, hbuf⟩ | ⟨k, hc, hg⟩
+  · have hnf := hasFields_null (M := M) hb
+    cases fuel with
+    | zero => simp [walkFuel] at hf
+    | succ f => exact ⟨acc.reverse, c, by simp [walkLoopC, hnf], Or.inl ⟨hnil, hn, hb, hbuf⟩, hnf⟩
+  · obtain ⟨items, c', he, hg', hnf⟩ := walkLoopC_spec hc fuel c acc hg (by have := walkFuel_gt_mu M k c.p; omega)
+    exact ⟨items, c', he, Or.inr ⟨k, hc, hg'⟩, hnf⟩
+
+/-- `RadioTap::present()` on a buffer the constructor accepts: the unchecked `namespace_flags()` / `advance_namespace()`
+    reads stay inside the buffer; equal to the total `present` -/
+theorem presentC_spec (M : Meta) (buf : Bytes) (hl : 4 ≤ buf.length) :
+    presentC M buf = present M buf ∧ ((∃ w, presentC M buf = .ok w) ∨ presentC M buf = .throw .malformedPacket) := by
+  unfold presentC present
+  rcases mkC_spec M buf with ⟨hnil, _⟩ | ⟨ht, ht'⟩ | ⟨_, c, k, h0, h0', hc, hg, hns, _⟩
+  · subst hnil; simp at hl
+  · simp [ht, ht']
+  · simp only [h0, h0', hg.has, Bool.false_eq_true, if_false]
+    have hinb := hc.inb
+    have hw0C : ∃ t', nsWalkC (buf.length / 4 + 2) buf 0 c.nst = .ok (k, t') :=
+      nsWalkC_spec buf k hc _ 0 _ (Nat.zero_le _) (by omega)
+    have hw0 : nsWalk (buf.length / 4 + 1) buf 0 = k := nsWalk_spec buf k hc _ 0 (Nat.zero_le _) (by omega)
+    have hwk : nsWalk (buf.length / 4 + 1) buf k = k := nsWalk_spec buf k hc _ k (Nat.le_refl _) (by omega)
+    obtain ⟨t1, hw0C⟩ := hw0C
+    have hl4 : ¬ (buf.length < 4) := by omega
+    have hfuel : buf.length / 4 + 2 = (buf.length / 4) + 1 + 1 := rfl
+    rw [hfuel]
+    unfold presentLoopC presentLoop
+    simp only [namespaceFlagsC, hg.has, Bool.false_eq_true, if_false, hg.buf, hns, Nat.mul_zero]
+    rw [rd32_inb _ _ _ (by omega)]
+    simp only [hl4, if_false, advanceToNextNamespaceC, advanceToNextNamespace, hg.buf, hns, hw0C, hw0]
+    rw [rd32_inb _ _ _ (by omega)]
+    simp only
+    by_cases hk : k = 0
+    · subst hk
+      simp
+    · have hne : (k != 0) = true := by simp [hk]
+      simp only [hne, if_true]
+      unfold presentLoopC presentLoop
+      simp only [namespaceFlagsC, hg.has, Bool.false_eq_true, if_false, hg.buf]
+      rw [rd32_inb _ _ _ (by omega)]
+      obtain ⟨t2, hwkC⟩ := nsWalkC_spec buf k hc (buf.length / 4 + 2) k t1 (Nat.le_refl _) (by omega)
+      simp only [hl4, if_false, advanceToNextNamespaceC, advanceToNextNamespace, hg.buf, hwkC, hwk]
+      rw [rd32_inb _ _ _ (by omega)]
+      simp
+
 end Tins.RT
